@@ -59,13 +59,24 @@ impl TestCase {
     /// outcome in regards to exit code and (STDOUT) output, or return an
     /// [`TestCaseError`]
     pub fn validate(&self, output: &Output) -> Result<()> {
-        if let ExitStatus::Code(exit_code) = output.exit_code {
-            let expected = self.exit_code.unwrap_or(0);
-            if exit_code != expected {
-                return Err(TestCaseError::InvalidExitCode {
-                    actual: exit_code,
-                    expected,
-                });
+        match output.exit_code {
+            ExitStatus::Code(exit_code) => {
+                let expected = self.exit_code.unwrap_or(0);
+                if exit_code != expected {
+                    return Err(TestCaseError::InvalidExitCode {
+                        actual: exit_code,
+                        expected,
+                    });
+                }
+            }
+            // an execution that did not end in an exit code can never be valid
+            ExitStatus::Timeout(_) => return Err(TestCaseError::Timeout),
+            ExitStatus::Skipped => return Err(TestCaseError::Skipped),
+            ExitStatus::Detached | ExitStatus::Unknown => {
+                return Err(TestCaseError::InternalError(anyhow::anyhow!(
+                    "execution ended without an exit code ({})",
+                    output.exit_code
+                )));
             }
         }
         let diff_tool = DiffTool::new(self.expectations.clone());
